@@ -203,6 +203,14 @@ def intersect : List (List Nat) → Option (List Nat)
   | [] => none  -- `@require(len(constraints) >= 1)`
   | l0 :: rest => some (l0.filter (fun v => rest.countP (fun l => decide (v ∈ l)) = rest.length))
 
+/-- The reduce step of `infer_set_constraints_by_property_from_invariants` for one property: the
+intersection of all its constant sets; `err` = the reported error "the constant sets have no literal in
+common" when nothing is left. -/
+def reduceSet (site : String) (ls : List (List Nat)) : IRes (List Nat) :=
+  match intersect ls with
+  | none => .crash site
+  | some l => if l.isEmpty then .err else .ok l
+
 /-- histogram entry of `_merge_set_of_…_constraints`: each of the two lists counts a value at most once -/
 def histo (a b : List Nat) (v : Nat) : Nat :=
   (if v ∈ a then 1 else 0) + (if v ∈ b then 1 else 0)
@@ -211,6 +219,12 @@ def histo (a b : List Nat) (v : Nat) : Nat :=
 `that ++ other`) counted twice. -/
 def mergeSet (a b : List Nat) : List Nat :=
   (dedupAux [] (a ++ b)).filter (fun v => histo a b v = 2)
+
+/-- `_merge_set_of_…_constraints(that, other)` with both constraints given: `none` = the error message
+"the sets of allowed literals have no literal in common" (returned instead of an empty constraint). -/
+def mergeSetE (a b : List Nat) : Option (List Nat) :=
+  let m := mergeSet a b
+  if m.isEmpty then none else some m
 
 /-! ## `_types.Constraints` and `_inline.py` -/
 
@@ -238,14 +252,18 @@ def mergeOptPats : Option (List Nat) → Option (List Nat) → Option (List Nat)
   | none, some b => some b
   | none, none => none
 
-/-- `ValueError` when the primitive types / enumerations differ. -/
+/-- `ValueError` when the primitive types / enumerations differ; `err` when no literal is common. -/
 def mergeOptSet (site : String) : Option (Nat × List Nat) → Option (Nat × List Nat) → IRes (Option (Nat × List Nat))
-  | some (ta, a), some (tb, b) => if ta ≠ tb then .crash site else .ok (some (ta, mergeSet a b))
+  | some (ta, a), some (tb, b) =>
+    if ta ≠ tb then .crash site
+    else match mergeSetE a b with
+      | some m => .ok (some (ta, m))
+      | none => .err
   | some a, none => .ok (some a)
   | none, some b => .ok (some b)
   | none, none => .ok none
 
-/-- `_merge_constraints(that, other)`; `err` = the merged length range is empty. -/
+/-- `_merge_constraints(that, other)`; `err` = the merged length range or a merged literal set is empty. -/
 def mergeCons : Option Cons → Option Cons → IRes (Option Cons)
   | some a, some b =>
     match Len.merge a.len b.len with
@@ -524,20 +542,41 @@ def classOwn (mm : MM) (cpMap : List (Nat × Cons)) (cls : ClsD) : IRes ByValue 
             if oid = enumId then { st with val := (st.val.1, pushKey p (enumId, lits) st.val.2) }
             else { st with errors := true }
           | _ => { st with errors := true }) ⟨([], []), false, none⟩
-  let reduceSets (site : String) (st : St ByValue) (groups : List (Ident × List (Nat × List Nat)))
-      (mk : Nat × List Nat → Cons) : St ByValue :=
+  -- reduce: all the intersections first (errors are collected; any error ends the set inference of the class) …
+  let interSets (site : String) (st : St (List (Ident × Nat × List Nat)))
+      (groups : List (Ident × List (Nat × List Nat))) : St (List (Ident × Nat × List Nat)) :=
     groups.foldl (fun st (p, cs) =>
-      match st.crash, cs.head?, intersect (cs.map (·.2)), findProp cls p with
-      | some _, _, _, _ => st
-      | none, some (t, _), some lits, some d => mergeInto st (beneathOptional d.ty).id (some (mk (t, lits)))
-      | none, _, _, _ => { st with crash := some site }) st
+      match st.crash, cs.head? with
+      | some _, _ => st
+      | none, none => { st with crash := some site }
+      | none, some (t, _) =>
+        match reduceSet site (cs.map (·.2)) with
+        | .crash s => { st with crash := some s }
+        | .err => { st with errors := true }
+        | .ok lits => { st with val := st.val ++ [(p, t, lits)] }) st
+  -- … then the merges into the mapping
+  let mergeSets (site : String) (st : St ByValue) (sets : List (Ident × Nat × List Nat))
+      (mk : Nat × List Nat → Cons) : St ByValue :=
+    sets.foldl (fun st (p, t, lits) =>
+      match st.crash, findProp cls p with
+      | some _, _ => st
+      | none, some d => mergeInto st (beneathOptional d.ty).id (some (mk (t, lits)))
+      | none, none => { st with crash := some site }) st
   let st2 : St ByValue :=
     if setCollected.errors then { st1 with errors := true }
     else
-      let s := reduceSets "intersect_set_of_primitives_constraints:require" st1 setCollected.val.1
-        (fun x => { prims := some x })
-      reduceSets "intersect_set_of_enumeration_literals_constraints:require" s setCollected.val.2
-        (fun x => { enums := some x })
+      let ps := interSets "intersect_set_of_primitives_constraints:require" ⟨[], false, none⟩ setCollected.val.1
+      let es := interSets "intersect_set_of_enumeration_literals_constraints:require" ⟨[], ps.errors, ps.crash⟩
+        setCollected.val.2
+      match es.crash with
+      | some s => (match st1.crash with | some _ => st1 | none => { st1 with crash := some s })
+      | none =>
+        if es.errors then { st1 with errors := true }
+        else
+          let s := mergeSets "intersect_set_of_primitives_constraints:require" st1 ps.val
+            (fun x => { prims := some x })
+          mergeSets "intersect_set_of_enumeration_literals_constraints:require" s es.val
+            (fun x => { enums := some x })
   match st2.crash with
   | some s => .crash s
   | none =>
